@@ -147,7 +147,14 @@ func genC09(r *Rand, tier string, i int) *h.Scenario {
 			op = h.Op{K: []int{h.OpCurrent, h.OpCompleted, h.OpAborted, h.OpPair}[r.Intn(4)]}
 		}
 		if m.Terminal() && IsMutator(op.K) {
-			// past the terminal state only non-decreasing updates are in scope (C11)
+			// past the terminal state only non-decreasing updates are in scope (C11); the one rule C09
+			// states for a finished bar: Abort has no effect on a completed one
+			if m.Completed && !m.Aborted && r.Bool(0.5) {
+				ops = append(ops, h.Op{K: h.OpAbort, Flag: r.Bool(0.5)}, h.Op{K: []int{h.OpPair, h.OpCompleted, h.OpAborted, h.OpCurrent}[r.Intn(4)]})
+				if r.Bool(0.4) {
+					ops = append(ops, h.Op{K: h.OpSleep, D: genSleep(r, &sc.Cont)}, h.Op{K: h.OpPair})
+				}
+			}
 			continue
 		}
 		ops = append(ops, op)
@@ -199,11 +206,19 @@ func judgeC09(hi *Hist) []*Violation {
 	var spans []span
 	cur := span{from: hi.Added[0].Ret, m: m}
 	justFinished := false
+	abortAfterComplete := false
 	for _, op := range hi.Ops {
 		if op.Client != 0 || op.Ret < 0 {
 			continue
 		}
 		if IsMutator(op.Op.K) {
+			if m.Completed && !m.Aborted && op.Op.K == h.OpAbort {
+				// no effect: the getters that follow are compared with the unchanged reference
+				seq = append(seq, "Abort-after-complete")
+				justFinished = true
+				abortAfterComplete = true
+				continue
+			}
 			if m.Terminal() {
 				break
 			}
@@ -242,7 +257,7 @@ func judgeC09(hi *Hist) []*Violation {
 		default:
 			continue
 		}
-		if m.Terminal() {
+		if m.Terminal() && !abortAfterComplete {
 			justFinished = false
 		}
 	}
